@@ -77,7 +77,8 @@ func c10Face(r *mc.Reporter, f *corpus.File, fi int, ld *ot.Loader, tier string)
 	has := func(t string) bool { return ld.HasTable(ot.MustNewTag(t)) }
 	face := font.NewFace(ft)
 	hbGo := harfbuzz.NewFont(face)
-	quick := tier == "quick"
+	quick := false // both tiers walk every glyph, every mapped rune and every axis (49 s)
+	_ = tier
 	big := len(f.Data) > 1<<20
 	var ref *hbref.Font
 	bothOutlines := has("CFF ") && has("glyf") // test fonts with two different drawings: the decoders document different preferences
@@ -561,6 +562,6 @@ func init() {
 			"uharfbuzz named in the property is not installed; the C library is bound directly"},
 		Shards: shShards, Run: c10Run, Replay: c10Replay,
 		MemLimit: 8 << 30,
-		Bounds:   map[string]string{"quick": "all faces; files > 1 MiB: 2000 evenly spaced glyphs, every 7th mapped rune, first 4 axes", "thorough": "all glyphs, all mapped runes, all axes"},
+		Bounds:   map[string]string{"quick": "all faces, all glyphs, all mapped runes, all axes", "thorough": "same"},
 	})
 }
